@@ -439,7 +439,7 @@ def main(argv=None):
 
     # discard-rate guard: a generator that mostly produces undefined cases is a harness bug
     disc = sum(total.discards.values())
-    if total.evaluations and disc > 0.25 * total.evaluations:
+    if total.evaluations and disc > 0.35 * total.evaluations:
         harness_errors.append('discard rate %.1f%% too high: %s' % (100.0 * disc / total.evaluations, dict(total.discards)))
 
     # 5. evidence
